@@ -21,7 +21,13 @@ type S struct{ A int }
 
 // pool of argument values (every type the statement lists, near-equal floats, same number in different types); each case
 // works on a drawn permutation of it, the first nvals entries being the values that occur in requests
-var pool = []interface{}{1, 2, "x", "y", true, 3.5, S{1}, S{2}, false, "", "1", int64(1), 2.000001, 2.000002, 0.1234567, float32(1.5), uint8(2)}
+type SA struct {
+	IP   [4]byte
+	Port int
+}
+
+var pool = []interface{}{1, 2, "x", "y", true, 3.5, S{1}, S{2}, false, "", "1", int64(1), 2.000001, 2.000002, 0.1234567, float32(1.5), uint8(2),
+	[4]byte{10, 0, 0, 1}, [4]byte{10, 0, 0, 2}, SA{[4]byte{10, 0, 0, 1}, 80}}
 var vals = pool
 
 type req struct {
@@ -655,11 +661,20 @@ func TestSmallCapacityResidency(t *testing.T) {
 		n := rapid.IntRange(5, 40).Draw(t, "n")
 		hot := rapid.IntRange(0, nv-1).Draw(t, "hot")
 		sawKept := false
+		lastReq := make([]uint64, nv) // instant of the value's latest request (0 = never)
 		for i := 0; i < n; i++ {
+			if dt := rapid.SampledFrom([]int{0, 0, 0, 0, 300, 1001, 1500}).Draw(t, "dt"); dt > 0 {
+				hx.C.AddMs(uint64(dt))
+				for k := range admitted { // tokens may have been refilled: the per-instant count starts afresh
+					admitted[k] = 0
+				}
+			}
 			v := hot
 			if rapid.IntRange(0, 2).Draw(t, "other") > 0 {
 				v = rapid.IntRange(0, nv-1).Draw(t, "v")
 			}
+			idle := lastReq[v] == 0 || hx.C.Ms()-lastReq[v] > 1000
+			lastReq[v] = hx.C.Ms()
 			// position of v in the recency list: resident iff it is among the last `capacity` distinct values
 			pos := -1
 			for k, x := range recent {
@@ -680,6 +695,8 @@ func TestSmallCapacityResidency(t *testing.T) {
 			}
 			if blk == nil {
 				admitted[v]++
+			} else if idle {
+				t.Fatalf("capacity %d, threshold %d: value v%d was never requested before or not for longer than the duration, and its single-token request is refused (request #%d, recency %v): whatever the cache kept or dropped, an idle value is granted a batch up to its threshold", capacity, T, v, i, recent)
 			}
 			if resident[v] {
 				sawKept = true
